@@ -75,6 +75,14 @@ package anyutil
 //@   ensures[message-or-error] result1 == nil ==> result0 != nil
 //@   ensures[error-gives-nil] result1 != nil ==> result0 == nil
 
+//@ func Unpack#custom-type-resolver
+//@   property C16
+//@   mode int
+//@   note only the type resolver's NotFound leads to the file-registry fallback: any other failure of the resolver (wrong kind of type, a custom resolver's own error) is the answer
+//@   requires[any] any != nil
+//@   requires[resolver] typeResolver != nil
+//@   ensures[resolver-failure-is-reported] second(typeResolver.FindMessageByURL(old(any.TypeUrl))) != nil && second(typeResolver.FindMessageByURL(old(any.TypeUrl))) != protoregistry.NotFound ==> result1 != nil
+
 //@ extern google.golang.org/protobuf/proto.UnmarshalOptions.Unmarshal
 //@   trusted protobuf-go; the precondition is a policy of this package: payloads are decoded with their unknown fields kept (Unpack(Pack(m)) must give back all of m)
 //@   requires[keeps-unknown-fields] !o.DiscardUnknown
